@@ -9,10 +9,24 @@ Definition parse_body_with (memo : bool) (fuel : nat) (toks : input) : res (list
 
 Definition body_fuel (toks : input) : nat := S (S (length toks)).
 
-(* two consecutive calls of parse_method_call on the same input in a memoising context: the results
-   and whether the cache holds an entry for that position after the first call *)
-Definition method_call_twice (fuel : nat) (toks : input) : res node * option (res node) * res node * list (N * N) :=
+(* the un-memoised body of parse_method_call (parse_method_call_uncached) *)
+Definition method_call_body (re : P node) : P node :=
+  id <- parse_identifier ;;
+  _ <- exp_token TOBracket ;;
+  ps <- sep_list re TComma ;;
+  cb <- exp_token TCBracket ;;
+  ret (Node KAstMethodCall (nident id) (nraw id) (mkRange (rstart (nrange id)) (rend (trange cb))) [] ps).
+
+(* parse_method_call as it was before /repo commit c0beeea: successes only were stored *)
+Definition old_parse_method_call (re : P node) : P node :=
+  memo_ok_only CACHE_METHOD_CALL (method_call_body re).
+
+(* two consecutive calls of a method-call parser on the same input in a memoising context: the results,
+   whether the cache holds an entry for that position after the first call, and the evaluation log *)
+Definition call_twice (pmc : P node) (toks : input) : res node * option (res node) * res node * list (N * N) :=
   let c0 := clear_cache (ctx0 true) in
-  let '(r1, c1) := parse_method_call (g_expr (gram fuel)) toks c0 in
-  let '(r2, c2) := parse_method_call (g_expr (gram fuel)) toks c1 in
+  let '(r1, c1) := pmc toks c0 in
+  let '(r2, c2) := pmc toks c1 in
   (r1, get_cache CACHE_METHOD_CALL (ilen toks) c1, r2, cevals c2).
+Definition method_call_twice (fuel : nat) (toks : input) := call_twice (parse_method_call (g_expr (gram fuel))) toks.
+Definition old_method_call_twice (fuel : nat) (toks : input) := call_twice (old_parse_method_call (g_expr (gram fuel))) toks.
